@@ -105,6 +105,30 @@ R05g  ``assert`` statements.  Every ``assert <cond>`` in ``rules/`` and ``utils/
       is a violation.  A table entry whose assert vanished or is discharged now is a stale note.
       What "a segment is always truthy" relies on is checked too: no segment class defines
       ``__bool__`` / ``__len__``.
+
+R05h  fixes are never built with an empty edit.  ``LintFix.__init__`` asserts that a create fix has an
+      edit ("A create fix must have an edit" -> 'Unexpected exception' violation); a ``replace`` fix with
+      an empty edit passes the constructor and fails later, outside the converting handler:
+      ``get_fix_slices`` subscripts ``source_edit_slices[0]`` (IndexError that aborts the lint run) and
+      ``apply_fixes`` asserts "Edit 'replace' requires `edit`".  Every ``LintFix.create_before /
+      create_after / replace(anchor, X)`` and ``LintFix("<type>", anchor, X)`` (type not provably
+      ``delete``) in ``rules/`` and ``utils/`` (``utils/testing`` excluded) is
+
+        discharged    X is known non-empty where the fix is built (inference and idioms:
+                      ``sa/editlists.py``): ``display`` (a display with a non-starred element,
+                      concatenation / ``list()`` / ``[*x]`` / ``D * n`` of such, through locals),
+                      ``append`` (an unconditional append / ``+= [x]`` on every path since the list was
+                      created), a dominating truthiness test (``branch``, ``short-circuit``,
+                      ``conditional-expression`` ..), ``case-split`` over a known disjunction,
+                      ``returns`` (a function of the tree whose every return is non-empty),
+                      ``contract`` (a parameter that every in-tree call site passes non-empty)
+        table         a row of ``R05H_TABLE`` keyed by (path, qualified function, normalised argument)
+                      with the number of reviewed occurrences, a class (CONSTRUCTION / PARSER / GRAMMAR /
+                      CONTRACT / NO_WITNESS) and the reason; a row may name a *witness*: an expression
+                      that must be known truthy at the site, without which the row does not apply
+
+      Anything else is a violation.  The two asserts and the unguarded subscript the rule is about are
+      anchors (gone -> analysis error: the premise changed, re-read).
 """
 
 from __future__ import annotations
@@ -458,6 +482,128 @@ def run(chk) -> None:
     _r05f(chk)
     chk.rule("R05g", "every assert in rules/ and utils/ is discharged by a fact known where it stands (dominating test, crawler guarantee, functional API, call sites, construction; sa/asserts.py), is a typing-only assertion on a parsed segment's pos_marker, or is reviewed into R05G_TABLE with the reason why its condition cannot be false; no segment class defines __bool__/__len__")
     _r05g(chk)
+    chk.rule("R05h", "every LintFix.create_before / create_after / replace (and LintFix(<type>, ..) whose type is not provably 'delete') in rules/ and utils/ is built with an edit list that is known non-empty there (display, unconditional append on every path, dominating truthiness test, case split, non-empty returns, call-site contract; sa/editlists.py) or is a row of R05H_TABLE -- an empty create fix raises \"A create fix must have an edit\" inside the rule, an empty replace fix aborts the lint run in get_fix_slices / apply_fixes")
+    _r05h(chk)
+
+
+# ---- R05h -------------------------------------------------------------------
+
+# (path below src/sqlfluff/, qualified function, normalised edit argument, reviewed occurrences, CLASS, reason[, witness])
+#   witness: an expression that must be known to be truthy where the fix is built (a condition atom, early
+#   returns included); without it the row does not apply and the site is reported
+R05H_TABLE = [
+    ("rules/structure/ST04.py", "Rule_ST04._eval", "segments", 1, "CONSTRUCTION",
+     "segments ends with self._rebuild_spacing(when_indent_str, nested_clauses), nested_clauses being the when_clause / else_clause / newline / comment / whitespace children of the "
+     "nested CASE; _rebuild_spacing emits [NewlineSegment(), WhitespaceSegment(indent), seg] for every when_clause / else_clause it meets, and the nested CASE has one: case2_first_when "
+     "(its first when_clause / else_clause child) is tested before -- without that test `CASE END WHEN a THEN 1 ELSE CASE END END` (ansi, clickhouse: END is not reserved) builds the fix "
+     "from an empty list", "case2_first_when"),
+]
+
+R05H_CLASSES = ("CONSTRUCTION", "PARSER", "GRAMMAR", "CONTRACT", "NO_WITNESS")
+
+
+def _r05h_anchors(chk) -> None:
+    """The premise: the two asserts an empty edit list runs into."""
+    repo = chk.repo
+    init = repo.fn("src/sqlfluff/core/rules/fix.py", "LintFix.__init__")
+    a1 = [n for n in walk_local(init) if isinstance(n, ast.Assert) and norm(n.test) == "self.edit"]
+    ok1 = False
+    if a1:
+        cfg = cfg_of(init)
+        for a in a1:
+            for e, pol in cfg.conditions(a):
+                if pol and isinstance(e, ast.Compare) and norm(e.left) == "self.edit_type" and "create_before" in norm(e) and "create_after" in norm(e):
+                    ok1 = True
+    if not ok1:
+        raise AnalysisError("R05h: LintFix.__init__ no longer asserts `self.edit` for create_before / create_after fixes (anchor refactored: re-read what an empty edit list does)")
+    ap = repo.fn("src/sqlfluff/core/linter/fix.py", "apply_fixes")
+    if not any(isinstance(n, ast.Assert) and norm(n.test).endswith(".edit") for n in ast.walk(ap)):
+        raise AnalysisError("R05h: apply_fixes no longer asserts that a fix it applies has an edit (anchor refactored)")
+    chk.count("R05h.anchors", 2)
+
+
+def _r05h(chk) -> None:
+    from .. import editlists as _edits
+    from ..idioms import conditions_at
+
+    _r05h_anchors(chk)
+    repo = chk.repo
+    cx = _asserts.Ctx(repo)
+    table = {}
+    for ent in R05H_TABLE:
+        if ent[4] not in R05H_CLASSES:
+            raise AnalysisError(f"R05h: table entry {ent[0]}::{ent[1]} `{ent[2]}` has unknown class {ent[4]}")
+        table[(ent[0], ent[1], ent[2])] = ent
+    open_sites: Dict[tuple, list] = {}
+    n_sites = 0
+    sampled = 0
+    for s in _edits.sites(repo):
+        n_sites += 1
+        for t in s.types:
+            chk.count(f"R05h.sites.{t}")
+        idiom, why = _edits.judge(cx, s)
+        if idiom is None:
+            open_sites.setdefault(_edits.site_key(s), []).append((s, why))
+            continue
+        chk.count("R05h.discharged")
+        chk.count(f"R05h.discharged.{idiom}")
+        if idiom != "display" and sampled < 8:
+            sampled += 1
+            chk.sample({"rule": "R05h", "site": f"{s.m.relpath}:{s.call.lineno}", "fix": s.form, "edit": short(s.arg, 70), "idiom": idiom})
+    chk.count("R05h.sites", n_sites)
+    used: Dict[tuple, int] = {}
+    for key, occ in open_sites.items():
+        s0, why0 = occ[0]
+        construct = f"src/sqlfluff/{key[0]}::{key[1]}"
+        kinds = "/".join(sorted({t for s, _ in occ for t in s.types}))
+        detail = f"{key[1]}: {kinds} fix built with `{key[2]}`, which may be empty"
+        ent = table.get(key)
+        applies = ent is not None
+        why_not = ""
+        if ent is not None and len(ent) > 6 and ent[6]:
+            for s, _ in occ:
+                cfg = cfg_of(s.f)
+                st = cfg.stmt_of(s.call)
+                conds = (cfg.conditions(st) + conditions_at(cfg, st)) if st is not None else []
+                w = ent[6]
+                if not any((pol and norm(e) in (w, f"{w} is not None", f"bool({w})")) or (not pol and norm(e) in (f"{w} is None", f"not {w}")) for e, pol in conds):
+                    applies = False
+                    why_not = f" (reviewed as {ent[4]} under a condition on `{ent[6]}`, which is not known here)"
+        if not applies:
+            chk.count("R05h.unreviewed", len(occ))
+            for i, (s, why) in enumerate(occ):
+                what = "raises \"A create fix must have an edit\" inside the rule ('Unexpected exception' instead of its result)" if set(s.types) & {"create_before", "create_after", "<computed>"} else \
+                    "is accepted by LintFix and then fails outside the rule: IndexError in get_fix_slices aborts the lint run, apply_fixes asserts \"Edit 'replace' requires `edit`\""
+                chk.fail(
+                    "R05h", s.call,
+                    f"{key[1]} builds a {'/'.join(s.types)} fix with the edit `{short(s.arg, 80) if s.arg is not None else '<missing>'}`: {why}{why_not}; an empty edit list {what}. "
+                    "Test the list and skip the fix (or the construct) when it is empty, or, if it cannot be empty, review the site into R05H_TABLE",
+                    detail=detail + (f" #{i + 1}" if len(occ) > 1 else ""), construct=construct,
+                )
+            continue
+        used[key] = len(occ)
+        limit, cls, reason = ent[3], ent[4], ent[5]
+        if len(occ) > limit:
+            chk.count("R05h.unreviewed", len(occ) - limit)
+            chk.fail(
+                "R05h", occ[-1][0].call,
+                f"{len(occ)} fixes built with `{short(s0.arg, 80)}` in {key[1]} that nothing known there makes non-empty, but only {limit} reviewed ({cls})",
+                detail=detail + f" (more than {limit} occurrences)", construct=construct,
+            )
+            continue
+        chk.count(f"R05h.table.{cls}", len(occ))
+        chk.count("R05h.table", len(occ))
+        if cls == "NO_WITNESS":
+            chk.count("R05h.no_witness", len(occ))
+            chk.note(f"R05h no witness / no invariant (listed, not claimed safe): {key[0]}::{key[1]} {key[2][:80]} -- {reason}")
+        chk.ok("R05h", construct, f"edit `{key[2][:90]}` [{cls}]")
+    stale = [k for k in table if k not in used]
+    chk.count("R05h.table_entries", len(table))
+    chk.count("R05h.table_entries_stale", len(stale))
+    if stale:
+        chk.note(f"R05h: {len(stale)} reviewed-table entries apply to no open site (site removed, discharged by the inference now, or the witness condition is missing and the site is reported): " + "; ".join(f"{a}::{b} {c[:40]}" for a, b, c in stale[:8]))
+    chk.floor("R05h.sites", 60)
+    chk.floor("R05h.discharged.display", 45)
 
 
 # ---- R05f -------------------------------------------------------------------
@@ -1756,5 +1902,66 @@ VARIANTS = [
         '        if raw_operator_list not in [["<", ">"], ["!", "="]]:\n            return None\n',
         '        accepted = raw_operator_list in [["<", ">"], ["!", "="]]\n        if not accepted:\n            return None\n',
         "QUIET", None, "the test is held in a local flag",
+    ),
+    # ---- R05h ---------------------------------------------------------------
+    Variant(
+        "lt09-leftover-guard-tests-none-instead-of-emptiness", "src/sqlfluff/rules/layout/LT09.py",
+        "                    if move_after_select_clause or add_newline:\n",
+        "                    if move_after_select_clause is not None or add_newline:\n",
+        "R05h", "Rule_LT09._eval_single_select_target_element", "select() returns an empty Segments, never None: a create_after fix with nothing to create",
+    ),
+    Variant(
+        "cv12-rest-of-where-guard-tests-none", "src/sqlfluff/rules/convention/CV12.py",
+        "        if where_clause_fix_segments:\n",
+        "        if where_clause_fix_segments is not None:\n",
+        "R05h", "Rule_CV12._eval_gen", "every condition moved to ON clauses: the WHERE expression is replaced with nothing (lint run aborted in get_fix_slices)",
+    ),
+    Variant(
+        "reindent-visual-space-appended-conditionally", "src/sqlfluff/utils/reflow/reindent.py",
+        '                    replacement_segs.append(WhitespaceSegment(" "))\n',
+        '                    if len(elem.segments) > 1:\n                        replacement_segs.append(WhitespaceSegment(" "))\n',
+        "R05h", "_convert_newlines_to_spaces", "the unconditional append that made the replacement non-empty is conditional now: a point that is a lone newline",
+    ),
+    Variant(
+        "al07-schema-part-skipped", "src/sqlfluff/rules/aliasing/AL07.py",
+        "                    for part in identifier_parts:\n",
+        "                    for part in identifier_parts[1:]:\n",
+        "R05h", "Rule_AL07._lint_aliases_in_join", "an unqualified table name has one part: the loop that fills the edit may not run",
+    ),
+    Variant(
+        "lt10-modifier-move-starts-from-an-empty-list", "src/sqlfluff/rules/layout/LT10.py",
+        "        edit_segments = [\n            WhitespaceSegment(),\n            select_clause_modifier,\n        ]\n        if not trailing_newline_segments:\n",
+        "        edit_segments = []\n        if not trailing_newline_segments:\n",
+        "R05h", "Rule_LT10._eval", "the display became an empty list that only a conditional append fills",
+    ),
+    Variant(
+        "quiet-cv12-guard-in-a-boolean-local", "src/sqlfluff/rules/convention/CV12.py",
+        "        if where_clause_fix_segments:\n",
+        "        something_left = bool(where_clause_fix_segments)\n        if something_left:\n",
+        "QUIET", None, "R05h: the truthiness test held in a boolean local",
+    ),
+    Variant(
+        "quiet-cv12-star-display-as-list-call", "src/sqlfluff/rules/convention/CV12.py",
+        "edit_segments=[*where_clause_fix_segments]",
+        "edit_segments=list(where_clause_fix_segments)",
+        "QUIET", None, "R05h: [*x] <-> list(x)",
+    ),
+    Variant(
+        "quiet-lt09-list-call-as-star-display", "src/sqlfluff/rules/layout/LT09.py",
+        "+ list(move_after_select_clause),",
+        "+ [*move_after_select_clause],",
+        "QUIET", None, "R05h: list(x) <-> [*x] under the disjunction",
+    ),
+    Variant(
+        "quiet-reindent-append-spelled-as-augmented-add", "src/sqlfluff/utils/reflow/reindent.py",
+        '                    replacement_segs.append(WhitespaceSegment(" "))\n',
+        '                    replacement_segs += [WhitespaceSegment(" ")]\n',
+        "QUIET", None, "R05h: append <-> += [x]",
+    ),
+    Variant(
+        "quiet-lt09-disjuncts-swapped-emptiness-by-len", "src/sqlfluff/rules/layout/LT09.py",
+        "                    if move_after_select_clause or add_newline:\n",
+        "                    if add_newline or len(move_after_select_clause) > 0:\n",
+        "QUIET", None, "R05h: disjuncts swapped, emptiness spelled with len",
     ),
 ]
